@@ -21,6 +21,11 @@ ENV_ASSUMPTIONS = [
 def recv_spec(name, tags, **P):
     P = dict(P)
     P['tags'] = list(tags)
+    if P.get('ping_sweep'):
+        P.setdefault('N', 0)
+        return Spec(name, 'checks.recv', 'run_recv', P,
+                    what='one control frame (opcode %d) whose payload length 0..125 is a solver variable, symbolic content at both ends, '
+                         'followed by %r; obligations %s' % (P.get('sweep_opcode', 9), P.get('suffix', ''), ','.join(tags)))
     if 'family' in P:
         F = P['family']
         P.setdefault('N', 0)
@@ -75,10 +80,16 @@ def c14(tier):
     tags = ['C14']
     if tier == 'quick':
         specs = [recv_spec('recv-N5', tags, N=5, auto_pong='sym'),
+                 recv_spec('ping-length-sweep', tags + ['C01'], ping_sweep=True, suffix='810161', xval_stride=7),
                  recv_spec('recv-N4-writefault', tags, N=4, first_opcodes=[9, 1, 2, 0],
                            fault=dict(ops=['sendall'], kinds=['oserror', 'exception'], max=1, skip={'sendall': 1}))]
     else:
-        specs = [recv_spec('recv-N7', tags, N=7, auto_pong='sym')]
+        specs = [recv_spec('recv-N7', tags, N=7, auto_pong='sym'),
+                 recv_spec('ping-length-sweep', tags + ['C01'], ping_sweep=True, suffix='810161', xval_stride=7),
+                 recv_spec('ping-length-sweep-bytewise', tags + ['C01'], ping_sweep=True, suffix='8900', cuts='bytewise', xval_stride=7),
+                 recv_spec('frag-binary-L2-ping2', tags + ['C01'], family=dict(opcode=2, L=2, max_frags=3, ctrl_len=2), cuts='bytewise'),
+                 recv_spec('recv-N5-writefault', tags, N=5, first_opcodes=[9, 1, 2, 0],
+                           fault=dict(ops=['sendall'], kinds=['oserror', 'exception'], max=1, skip={'sendall': 1}))]
     return run_property('C14', tier, specs, 'model_checking', 'ping/pong', ENV_ASSUMPTIONS, RECV_FUNCS)
 
 
@@ -402,6 +413,8 @@ def c16(tier):
           K=3 if q else 4),
         S('growth-K%d' % (8 if q else 10), 'long runs restricted to {refused, ready-then-drop}: the window keeps doubling (2^k up to k=%d) and resets after Ready' % (8 if q else 10),
           K=8 if q else 10, outcomes=['refused', 'ready-drop'], sym_exit=False),
+        S('app-close', 'the application calls close() at a solver-chosen Connecting/Connected/Ready event of any attempt: persist() must still yield one BackOff and reconnect',
+          K=3, outcomes=['refused', 'ready-drop', 'ready-close'], app_close=True, sym_waits=False, sym_exit=False),
         S('defaults', 'default min_wait=5/max_wait=30, 5 attempts', K=5, outcomes=['refused', 'rejected', 'ready-close'], sym_waits=False, sym_exit=False),
     ]
     return run_property('C16', tier, specs, 'model_checking', 'persist() back-off', ENV_ASSUMPTIONS + [
@@ -531,6 +544,7 @@ def c12(tier):
         sched_spec('server-close-vs-send', tags, [['server_close'], ['send_binary']], 2, W + ' (loop echoing a server Close vs application send)'),
         sched_spec('close-vs-loop', tags, [['close'], ['pong', 'auto_ping']], 2, W),
         sched_spec('server-close-vs-close', tags, [['server_close'], ['close']], 2, W),
+        sched_spec('close-vs-close-then-send', tags, [['close'], ['close2', 'send_text']], 2, W + ' (a send after both close() calls returned)'),
     ]
     if not q:
         specs += [sched_spec('close-send-send', tags, [['close'], ['send_text'], ['send_binary']], 2, W),
